@@ -5,7 +5,7 @@ set -u
 patch=$1
 rm -rf /tmp/seedrepo && cp -r /repo /tmp/seedrepo && (cd /tmp/seedrepo && git apply "$patch") || { echo "patch does not apply"; exit 2; }
 rm -rf /tmp/verif-evidence-backup && cp -r /verif/evidence /tmp/verif-evidence-backup
-trap '(cd /verif && python3 -c "from vlib.common import build_go; build_go()" >/dev/null 2>&1); sed -i "s#=> /tmp/seedrepo#=> /repo#" /verif/harness/go.mod; rm -rf /tmp/seedrepo /verif/evidence; mv /tmp/verif-evidence-backup /verif/evidence' EXIT
+trap '(cd /verif && python3 -c "from vlib.common import build_go, make_overlay; build_go(); from vlib import c14; c14.build_vaccess(); c14.regenerate(make_overlay())" >/dev/null 2>&1); sed -i "s#=> /tmp/seedrepo#=> /repo#" /verif/harness/go.mod; rm -rf /tmp/seedrepo /verif/evidence; mv /tmp/verif-evidence-backup /verif/evidence' EXIT
 cd /verif
 VERIF_REPO=/tmp/seedrepo ./setup.sh >/dev/null 2>&1
 run() { p=$1; out=$(VERIF_REPO=/tmp/seedrepo ./check "$p" --tier quick 2>&1); rc=$?; if [ $rc -ne 0 ]; then echo "ALARM $p rc=$rc: $(echo "$out" | grep -E '^VIOLATION' | head -3 | tr '\n' ' ')"; for f in $(echo "$out" | grep -E '^VIOLATION' | sed 's/.*replay=//; s/ .*//' | head -2); do python3 -c "
